@@ -166,7 +166,7 @@ def run(module, cfg=None, *, workers=None, simulate=None, depth=None, seed=None,
         a, b = res.coverage.get(m.group(1), (0, 0))
         res.coverage[m.group(1)] = (a + int(m.group(3)), b + int(m.group(4)))
     res.prints = _split_prints(out)
-    brief = '\n'.join(l for l in out.split('\n') if l.strip() and not l.startswith(('Parsing file', 'Semantic processing', 'Running ', 'TLC2 Version')))[-2500:]
+    brief = '\n'.join(l for l in out.split('\n') if l.strip() and not l.startswith(('Parsing file', 'Semantic processing', 'Running ', 'TLC2 Version', 'Linting of')))[-2500:]
     if res.rc not in (0, 12, 10, 11, 13) and not simulate:
         raise TLCError('TLC failed rc=%s\n%s\n%s' % (res.rc, res.cmd.split('tlc2.TLC')[1], brief))
     if simulate and res.rc not in (0, 12, 10, 11, 13):
